@@ -1128,6 +1128,7 @@ if (itemvalue.data != {nullptr}) {{+
 in[i] = strdup({cast_static}char *{cast1}itemvalue.data{cast2});
 -}}
 Py_XDECREF(itemvalue.dataobj);
+itemvalue.dataobj = {nullptr};
 -}}
 Py_DECREF(seq);
 
